@@ -9,6 +9,11 @@ type nat =
 | O
 | S of nat
 
+(** val fst : ('a1 * 'a2) -> 'a1 **)
+
+let fst = function
+| (x, _) -> x
+
 (** val length : 'a1 list -> nat **)
 
 let rec length = function
@@ -42,6 +47,15 @@ module Coq__1 = struct
    | S p -> S (add p m)
 end
 include Coq__1
+
+(** val sub : nat -> nat -> nat **)
+
+let rec sub n0 m =
+  match n0 with
+  | O -> n0
+  | S k -> (match m with
+            | O -> n0
+            | S l -> sub k l)
 
 module Nat =
  struct
@@ -101,14 +115,14 @@ let rec existsb f = function
 | [] -> false
 | a :: l0 -> (||) (f a) (existsb f l0)
 
-(** val skipn : nat -> 'a1 list -> 'a1 list **)
+(** val firstn : nat -> 'a1 list -> 'a1 list **)
 
-let rec skipn n0 l =
+let rec firstn n0 l =
   match n0 with
-  | O -> l
+  | O -> []
   | S n1 -> (match l with
              | [] -> []
-             | _ :: l0 -> skipn n1 l0)
+             | a :: l0 -> a :: (firstn n1 l0))
 
 (** val seq : nat -> nat -> nat list **)
 
@@ -1007,19 +1021,20 @@ type dres =
 | DBadChar of z
 | DLengthError
 
-(** val count_padding_rev : z list -> nat **)
+(** val count_padding_aux : z list -> nat * bool **)
 
-let rec count_padding_rev = function
-| [] -> O
-| c :: r' ->
-  if Z.eqb c (Zpos (XI (XO (XI (XI (XI XH))))))
-  then S (count_padding_rev r')
-  else O
+let rec count_padding_aux = function
+| [] -> (O, true)
+| c :: r ->
+  let (n0, all) = count_padding_aux r in
+  if (&&) all (Z.eqb c (Zpos (XI (XO (XI (XI (XI XH)))))))
+  then ((S n0), true)
+  else (n0, false)
 
 (** val count_padding : z list -> nat **)
 
 let count_padding cs =
-  count_padding_rev (rev cs)
+  fst (count_padding_aux cs)
 
 (** val dec_loop : z list -> z -> z -> dres **)
 
@@ -1141,7 +1156,7 @@ let rec rfc4648 = function
 (** val strip_padding : z list -> z list **)
 
 let strip_padding cs =
-  rev (skipn (count_padding cs) (rev cs))
+  firstn (sub (length cs) (count_padding cs)) cs
 
 (** val split_at : z -> z list -> z list -> z list list * z list **)
 
